@@ -190,6 +190,13 @@ func (i *interpreter) ptr(p value) *value {
 
 func (i *interpreter) storeAt(T types.Type, addr value, v value) {
 	a := i.ptr(addr)
+	if i.sched != nil && i.sched.enabled && i.path != nil {
+		if name, ok := i.sched.shared[a]; ok {
+			here := i.curFnName()
+			i.sched.visible(i, "store "+name, a)
+			i.sched.accessCheckAt(i, a, true, name, here)
+		}
+	}
 	if a == nil {
 		rtPanic("invalid memory address or nil pointer dereference")
 	}
@@ -224,6 +231,13 @@ func (i *interpreter) loadAt(T types.Type, addr value) value {
 	case *value:
 		if a == nil {
 			rtPanic("invalid memory address or nil pointer dereference")
+		}
+		if i.sched != nil && i.sched.enabled && i.path != nil {
+			if name, ok := i.sched.shared[a]; ok {
+				here := i.curFnName()
+				i.sched.visible(i, "load "+name, a)
+				i.sched.accessCheckAt(i, a, false, name, here)
+			}
 		}
 		return load(T, a)
 	case symptr:
@@ -450,6 +464,7 @@ type schan struct {
 	buf      []value
 	closed   bool
 	id       int
+	offers   []*offer // parked senders (scheduler mode)
 }
 
 func (i *interpreter) makeChan(n int) *schan {
@@ -511,6 +526,21 @@ func (w *Worker) runPath(fn *ssa.Function, it workItem, fuel int64, exp *Explore
 	}
 	defer func() {
 		r := recover()
+		if i.sched != nil && i.sched.enabled {
+			// stop every engine thread before touching the heap again
+			f, site := i.sched.drain()
+			if a, ok := r.(abort); ok && a.kind == "killed" {
+				r = f
+				if site != "" {
+					i.panicSite = site
+				}
+			} else if r == nil && f != nil {
+				r = f
+				if site != "" {
+					i.panicSite = site
+				}
+			}
+		}
 		if r != nil {
 			switch a := r.(type) {
 			case abort:
@@ -702,5 +732,8 @@ func (w *Worker) FuelIsViolation(b bool) { w.i.fuelIsViolation = b }
 
 // EnableScheduler switches on the bounded thread scheduler for this worker.
 func (w *Worker) EnableScheduler(maxPreempt int) {
-	w.i.sched = &scheduler{enabled: true}
+	if maxPreempt <= 0 {
+		maxPreempt = 2
+	}
+	w.i.sched = &scheduler{enabled: true, maxPreempt: maxPreempt}
 }
